@@ -172,11 +172,11 @@ Section C06.
   Proof. intros h. exists (list_header parse_q h). split; [reflexivity|apply list_header_length_l]. Qed.
 End C06.
 
-(** The memo cell ([UnsafeCell<Option<Bytes>>]: check; compute; check-and-write; read) under every
-    sequentially consistent interleaving of n tasks inside the same [get_x], from an empty or a filled
-    cell: the cell only ever holds a value satisfying P (instantiate P b := b = enc a level body), and
-    every task that has returned returned such a value — never the unwrap panic.  The unsynchronised
-    write is a data race in Rust's memory model; nothing is claimed about weaker executions. *)
+(** The memo cell ([tokio::sync::OnceCell<Bytes>], [get_or_init]: fast-path check; take the permit; compress;
+    store and give the permit up; read) under every interleaving of n tasks inside the same [get_x], from an
+    empty or a filled cell: the cell only ever holds a value satisfying P (instantiate P b := b = enc a level
+    body), and every task that has returned returned such a value — never a panic.  (Before fix ec0a225: an
+    [UnsafeCell] with a separate check and write, see [memo_double_write_v0_refuted].) *)
 Theorem memo_invariant : forall (P : bytes -> Prop) (vals : list bytes) (n : nat) (cell : option bytes) (sched : list nat),
   (forall i, (i < n)%nat -> P (nth i vals [])) -> (forall b, cell = Some b -> P b) ->
   let st := mrun vals (minit cell n) sched in
@@ -184,14 +184,35 @@ Theorem memo_invariant : forall (P : bytes -> Prop) (vals : list bytes) (n : nat
   (forall i r, nth_error (m_pcs st) i = Some (PDone r) -> exists b, r = Ok b /\ P b).
 Proof. intros P vals n cell sched Hv Hc. exact (memo_invariant_l P vals n Hv cell sched Hc). Qed.
 
-Theorem memo_write_once : forall vals sched st b, m_cell st = Some b -> m_cell (mrun vals st sched) = Some b.
+(** written once: whatever the cell holds at some point of a run it holds for the rest of the run *)
+Theorem memo_write_once : forall vals n cell sched1 sched2 b,
+  m_cell (mrun vals (minit cell n) sched1) = Some b -> m_cell (mrun vals (minit cell n) (sched1 ++ sched2)) = Some b.
 Proof. exact memo_write_once_l. Qed.
 
-(** no task waits for another: four turns complete a task, so every fair schedule completes all *)
+(** no deadlock, termination: after any schedule either every task has returned or some task can move (a task
+    waiting for the permit cannot, the one holding it can), and every move uses up one of the 4n steps there are *)
 Theorem memo_completes : forall vals cell n sched,
-  (forall i, (i < n)%nat -> (4 <= count_occ Nat.eq_dec sched i)%nat) ->
-  forallb pc_done (m_pcs (mrun vals (minit cell n) sched)) = true.
+  let st := mrun vals (minit cell n) sched in
+  (total_left (minit cell n) = 4 * n)%nat /\
+  (forallb pc_done (m_pcs st) = true \/
+   exists i st', mstep vals st i = Some st' /\ (total_left st' < total_left st)%nat).
 Proof. exact memo_completes_l. Qed.
+
+(** kvarn 0.6.3 ([UnsafeCell<Option<Bytes>>], second check and write not one step) with tasks on different worker
+    threads: two tasks both see the empty cell at their second check and both write; the bytes task 0 has already
+    returned are not the ones the cell holds in the end (and the first buffer is dropped by [Option::replace]
+    while references into the cell are out).  Replayed on the real code (component neg.stress: 2-3 replies in
+    a million carry another buffer than the first reply). *)
+Theorem memo_double_write_v0_refuted :
+  exists vals sched1 sched2 b b',
+    b <> b' /\
+    m0_cell (mrun0 vals (minit0 2) sched1) = Some b /\
+    nth_error (m0_pcs (mrun0 vals (minit0 2) sched1)) 0 = Some (P0Done (Ok b)) /\
+    m0_cell (mrun0 vals (minit0 2) (sched1 ++ sched2)) = Some b'.
+Proof.
+  exists [B "a"; B "b"], [0; 1; 0; 1; 0; 1; 0; 0; 0]%nat, [1]%nat, (B "a"), (B "b").
+  split; [discriminate|]. vm_compute. repeat split; reflexivity.
+Qed.
 
 (** kvarn 0.6.3 before the repair (values and quality texts not trimmed): a header of the grammar on
     which [list_header] is not the reference parse — the refused gzip gets quality 1.0. *)
@@ -320,9 +341,9 @@ Example ex_wf_members :
   forallb member_ok ms = true /\
   list_header parse_q_dec (members_text ms) = [(B "gzip", QZero); (B "br", QOne); (B "identity", QOther)].
 Proof. vm_compute. split; reflexivity. Qed.
-(** three tasks race on an empty cell: interleaved checks, two encoder runs, one write wins,
-    the third task finds the cell filled *)
+(** three tasks race on an empty cell: task 0 takes the permit, task 1 finds it taken and waits (its turns are
+    skipped), task 0 compresses and stores, tasks 2 and 1 find the cell filled *)
 Example ex_memo_race :
-  let st := mrun [B "v"; B "v"; B "v"] (minit None 3) [0; 1; 0; 1; 1; 0; 2; 0; 1; 2; 2]%nat in
-  m_cell st = Some (B "v") /\ m_pcs st = [PDone (Ok (B "v")); PDone (Ok (B "v")); PDone (Ok (B "v"))].
-Proof. vm_compute. split; reflexivity. Qed.
+  let st := mrun [B "v"; B "w"; B "x"] (minit None 3) [0; 1; 0; 1; 1; 0; 2; 0; 1; 2; 1]%nat in
+  m_cell st = Some (B "v") /\ m_pcs st = [PDone (Ok (B "v")); PDone (Ok (B "v")); PDone (Ok (B "v"))] /\ m_lock st = false.
+Proof. vm_compute. repeat split; reflexivity. Qed.
